@@ -26,7 +26,19 @@ struct Obs {
     fail: String,
 }
 
+/// A `FrameHeader::write` that FAILS after part of the header went into the thread-local scratch buffer (a start
+/// sample number that cannot be coded). Every observation below runs right after one: what a component reports and
+/// writes must not depend on an earlier failed write on the same thread.
+fn failed_header_write() {
+    if let Ok(mut h) = FrameHeader::new(192, ChannelAssignment::Independent(1), 16, 44100, FrameOffset::Frame(0)) {
+        h.set_frame_offset(FrameOffset::StartSample(1u64 << 36));
+        let mut sink = MemSink::<u8>::new();
+        let _ = h.write(&mut sink);
+    }
+}
+
 fn observe<C: BitRepr + Verify>(c: &C, parse_back: &dyn Fn(&[u8]) -> String, all_k: bool) -> Obs {
+    failed_header_write();
     let verify = c.verify().is_ok();
     let count = c.count_bits();
     let mut s8 = MemSink::<u8>::new();
